@@ -403,6 +403,9 @@ def check(repo):
                    "was accepted is not what is on disk and a later connection / search is served from the old content" % (wfi.name, why))
     if not bad_w:
         r3.ok({"file_manager": F.SRV_FM, "writers": n_w, "rule": "write on every path but 'directory missing'"})
+    for wfi, call in F.directory_creators(repo, F.SRV_FM):
+        r3.fail_fn(wfi, call, "%s creates directories" % wfi.name,
+                   "%s creates the service directory itself (%s): only the accepted configuration upload may bring a service into being" % (wfi.name, short(call)))
     _check_artifact_names(repo, r3)
 
     # ------------------------------------------------------------------ R10.6 a closed connection cannot overwrite its successor's state
